@@ -106,13 +106,14 @@ type FactDef struct {
 type ContractSet struct {
 	Macros map[string]macroDef
 	PkgInv map[string][]*Clause // package path -> invariants of package-level state assumed at entry
+	PkgInvLocal map[string][]*Clause
 	ByKey  map[string]*Contract
 	Order  []string
 	Errs   []string
 }
 
 func NewContractSet() *ContractSet {
-	return &ContractSet{ByKey: map[string]*Contract{}, PkgInv: map[string][]*Clause{}, Macros: map[string]macroDef{}}
+	return &ContractSet{ByKey: map[string]*Contract{}, PkgInv: map[string][]*Clause{}, PkgInvLocal: map[string][]*Clause{}, Macros: map[string]macroDef{}}
 }
 
 func splitTopLevel(s string, sep rune) []string {
@@ -258,6 +259,12 @@ func (cs *ContractSet) ParseFile(path string, pkgPath string) {
 		if kw == "pkginv" {
 			if c := mkClause(rest); c != nil {
 				cs.PkgInv[pkgPath] = append(cs.PkgInv[pkgPath], c)
+			}
+			continue
+		}
+		if kw == "pkginvlocal" { // package invariant assumed only by units of the package itself (not exported to importers)
+			if c := mkClause(rest); c != nil {
+				cs.PkgInvLocal[pkgPath] = append(cs.PkgInvLocal[pkgPath], c)
 			}
 			continue
 		}
